@@ -136,6 +136,17 @@ def run_family(fam: dict) -> dict:
         except threading.BrokenBarrierError:
             pass
 
+    prov_barriers: list = []
+
+    def provider_rendezvous() -> None:
+        i = getattr(cur_step, "i", None)
+        if i is None or i >= len(prov_barriers):
+            return
+        try:
+            prov_barriers[i].wait(timeout=1)
+        except threading.BrokenBarrierError:
+            pass
+
     ns["run_inner"] = run_inner
     ns["DEPTH"] = depth
     ns["body_rendezvous"] = body_rendezvous
@@ -154,6 +165,10 @@ def run_family(fam: dict) -> dict:
         nthreads = fam["threads"]
         barrier = threading.Barrier(nthreads)
         body_barriers.extend(threading.Barrier(nthreads) for _ in fam["steps"])
+        prov_barriers.extend(threading.Barrier(nthreads) for _ in fam["steps"])
+        for pobj in providers.values():
+            if isinstance(pobj, I.Provider):
+                pobj.hook = provider_rendezvous
         results = [[None] * len(fam["steps"]) for _ in range(nthreads)]
 
         def worker(t: int) -> None:
